@@ -44,6 +44,30 @@ func runC01(r *Run) {
 	r.rule("C01.R2", "guarded arithmetic: the delta appliers change numeric fields only through UpdateAssetValue/UpdateAssetDecValue; those reject a result below zero; the NST decrease caps each subtraction to what is present", 8)
 	r.rule("C01.R3", "delta balance per operation (symbolic cancellation) and no other increaser", 10)
 	r.rule("C01.R4", "withdraw precondition: the withdraw arm negates the amount; delegation requires WithdrawableAmount >= amount before any write", 2)
+	r.rule("C01.R5", "iterator helpers with an isUpdate flag always write the modified record back (own key) once the callback succeeded -- also for the element on which the iteration stops", 2)
+	iteratorWriteBackRule(r, "C01.R5", map[string]bool{"IterateUndelegationsByStakerAndAsset": true, "IterateUndelegationsByOperator": true, "IterateAssetsForOperator": true})
+	// the direct (unguarded) subtractions of the slash path stay non-negative because the applied proportion is
+	// capped at 1: that cap is C04.R1's obligation, repeated here because "no pool is ever negative" depends on it
+	r.rule("C01.R6", "slash path non-negativity: the proportion applied to pools and undelegations is the capped one (C04.R1/R2 obligations)", 3)
+	if r.Prop == "C01" {
+		sub := NewRun(r.W, "C04", r.Tier, r.Seed)
+		runC04(sub)
+		n := 0
+		for _, o := range sub.Obs {
+			if o.Rule != "C04.R1" && o.Rule != "C04.R2" {
+				continue
+			}
+			n++
+			if o.Status == "ok" {
+				r.ok("C01.R6", o.Key, o.Pos, o.Desc)
+			} else {
+				r.bad("C01.R6", o.Key, o.Pos, o.Desc, o.Detail)
+			}
+		}
+		if n == 0 {
+			r.bad("C01.R6", "slash|none", "-", "C04.R1 obligations present", "no obligations")
+		}
+	}
 
 	// ---- R1
 	knownWriters := map[string]map[string]bool{
